@@ -1,22 +1,23 @@
 (* C09 - the property theorems, nothing else.  Each is closed by [exact] of a
-   lemma from Lemmas.v and followed by Print Assumptions.
+   lemma from Lemmas.v / Compose.v and followed by Print Assumptions.
 
-   Full-strength statement aimed at (kept here because only parts of it are
-   proved):
-     forall fs, ft_conflict true fs = false -> forall i f, nth_error fs i = Some f ->
-       nth_error (roundtrip true true fs) i = nth_error (roundtrip true true [f]) 0
-   ("every field is read back from the shared file exactly as from a file of
-   its own", whence order-blindness).  Proved below: the writer half for every
-   list and every order (C09_content_preserved, C09_order_blind_content,
-   C09_share_only_if_equal), the reader half per data variable
-   (C09_reader_field_independent_partial) and the formula_terms half at the
-   time of writing (C09_formula_terms_written_partial).  Not proved: the
-   composition through file_view/finish, and that the guard ft_conflict = false
-   keeps the attribute until the end.  Without the guard the statement is
-   false (C09_formula_terms_leak_refuted, C09_formula_terms_order_refuted:
-   open findings F09d/F09e). *)
+   Full-strength statement (now proved, C09_composition and its corollaries):
+     forall fs, wfs fs -> ft_conflict true fs = false ->
+       roundtrip true true fs = map expected fs
+   where [expected f] (Spec.v) is written from the field alone: "writing any
+   list of fields to one file and reading it back returns, per field, what the
+   field is, the same as from a file of its own, whatever the other fields
+   and whatever the order".  The two guards are exact in the following sense:
+     - wfs (Spec.wfb per field): the field is writable in a file of its own
+       without merging two of its own constructs (pairwise different dimension
+       coordinates and auxiliary coordinates, references name existing
+       constructs); C09_wf_guard_needed shows the conclusion failing without
+       it (single-file matter, C01);
+     - ft_conflict = false: no two fields hold one coordinate variable while
+       wanting different formula_terms on it: open finding F09d/F09e,
+       C09_formula_terms_leak_refuted, C09_formula_terms_order_refuted. *)
 From Coq Require Import Permutation.
-From CfdmV Require Import Common.Base C09.Model C09.Lemmas.
+From CfdmV Require Import Common.Base C09.Model C09.Spec C09.Lemmas C09.Compose.
 Open Scope Z_scope.
 
 (* Metadata variables are shared only between equal constructs: two
@@ -50,31 +51,94 @@ Theorem C09_order_blind_content :
 Proof. exact content_preserved_perm. Qed.
 Print Assumptions C09_order_blind_content.
 
-(* Reader (repaired): what is read for a data variable - its constructs, its
-   vertical coordinate references, its grid mappings - and the datum
-   assignments it causes are the same whatever the registry left behind by the
-   data variables read before it.  (_partial: the statement for whole files,
-   nth_error (read_views true l) i = read of [ff] alone, needs the bookkeeping
-   of the event list and is not proved.) *)
-Theorem C09_reader_field_independent_partial :
-  forall i ff s1 s2,
-  snd (read_field true i ff s1) = snd (read_field true i ff s2) /\
-  exists n, dat (fst (read_field true i ff s1)) = n ++ dat s1 /\
-            dat (fst (read_field true i ff s2)) = n ++ dat s2.
-Proof. exact read_field_reset_indep. Qed.
-Print Assumptions C09_reader_field_independent_partial.
+(* Reader (repaired), whole files: reading a file with any number of data
+   variables gives, position by position, what reading each data variable in a
+   file of its own gives (the vertical_crs registry and the datum assignments
+   of one data variable never reach another). *)
+Theorem C09_reader_whole_file :
+  forall l, read_views true l = flat_map (fun ff => read_views true [ff]) l.
+Proof. exact reader_whole_file. Qed.
+Print Assumptions C09_reader_whole_file.
+
+(* Repaired dimension rule: for well-formed fields, in any list, the data axes
+   of one field are written to pairwise different netCDF dimensions. *)
+Theorem C09_axes_distinct_dimensions :
+  forall fs st os, wfs fs -> write_fields true fs st0 = (st, os) ->
+  Forall2 (fun _ o => NoDup (o_dims o)) fs os.
+Proof. exact axes_distinct_dimensions. Qed.
+Print Assumptions C09_axes_distinct_dimensions.
 
 (* When a field has been written, the formula_terms attribute of the
    coordinate variable that owns its vertical reference names the field's own
-   domain ancillary variables, in any reachable writer state.  (_partial: that
-   it stays so until the file is closed needs the guard below.) *)
-Theorem C09_formula_terms_written_partial :
+   domain ancillary variables, in any reachable writer state ... *)
+Theorem C09_formula_terms_written :
   forall fx f st st' o fr owner,
   Inv st -> write_field fx f st = (st', o) -> ft f = Some fr ->
   nth (f_z fr) (o_dim o) None = Some owner -> f_terms fr <> [] ->
   vfta st' owner = Some (map (fun j => nth j (o_anc o) 0%nat) (f_terms fr)).
 Proof. exact ft_written. Qed.
-Print Assumptions C09_formula_terms_written_partial.
+Print Assumptions C09_formula_terms_written.
+
+(* ... and under the guard it is still so when the file is closed: every
+   coordinate variable of every field carries exactly the formula terms that
+   field wants on it (none, if it wants none). *)
+Theorem C09_formula_terms_persist :
+  forall fs st os, write_fields true fs st0 = (st, os) -> ft_conflict true fs = false ->
+  Forall2 (fun f o => forall a v, nth a (o_dim o) None = Some v -> vfta st v = wantv f (o_anc o) a) fs os.
+Proof. exact final_fta. Qed.
+Print Assumptions C09_formula_terms_persist.
+
+(* What the shared file says about each data variable is the specification
+   view of its field. *)
+Theorem C09_files_are_spec_views :
+  forall fs st os, wfs fs -> ft_conflict true fs = false -> write_fields true fs st0 = (st, os) ->
+  map (file_view st) os = map spec_view fs.
+Proof. exact files_are_spec_views. Qed.
+Print Assumptions C09_files_are_spec_views.
+
+(* THE COMPOSITION: write then read returns, per field, the field's own
+   expected view - a function of that field alone. *)
+Theorem C09_composition :
+  forall fs, wfs fs -> ft_conflict true fs = false -> roundtrip true true fs = map expected fs.
+Proof. exact composition. Qed.
+Print Assumptions C09_composition.
+
+(* ... which is what a file of its own gives (the guard for a single
+   well-formed field holds by C09_single_no_conflict) ... *)
+Theorem C09_single_no_conflict : forall f, wfb f = true -> ft_conflict true [f] = false.
+Proof. exact single_no_conflict. Qed.
+Print Assumptions C09_single_no_conflict.
+
+Theorem C09_roundtrip_as_single_files :
+  forall fs, wfs fs -> ft_conflict true fs = false ->
+  (roundtrip true true fs = flat_map (fun f => roundtrip true true [f]) fs) /\
+  (forall i f, nth_error fs i = Some f ->
+     nth_error (roundtrip true true fs) i = nth_error (roundtrip true true [f]) 0%nat).
+Proof. exact roundtrip_singles. Qed.
+Print Assumptions C09_roundtrip_as_single_files.
+
+(* ... and does not depend on the order: for every permutation that also
+   passes the guard the same fields come back, permuted. *)
+Theorem C09_order_invariance :
+  forall fs fs', Permutation fs fs' -> wfs fs -> ft_conflict true fs = false -> ft_conflict true fs' = false ->
+  Permutation (roundtrip true true fs) (roundtrip true true fs') /\
+  roundtrip true true fs' = map expected fs'.
+Proof. exact order_invariance. Qed.
+Print Assumptions C09_order_invariance.
+
+(* Non-vacuity of the two guards (with real sharing), and a witness that the
+   well-formedness guard cannot be dropped. *)
+Theorem C09_composition_example :
+  wfs [wA; wA; wB] /\ ft_conflict true [wA; wA; wB] = false /\
+  (length (vt (fst (write_fields true [wA; wA; wB] st0))) <
+   2 * length (vt (fst (write_fields true [wA] st0))) + length (vt (fst (write_fields true [wB] st0))))%nat.
+Proof. exact composition_example. Qed.
+Print Assumptions C09_composition_example.
+
+Theorem C09_wf_guard_needed :
+  wfb wH = false /\ exists o, In o (snd (write_fields true [wH] st0)) /\ ~ NoDup (o_dims o).
+Proof. exact wf_guard_needed. Qed.
+Print Assumptions C09_wf_guard_needed.
 
 (* Open finding F09d: two fields share a coordinate variable, only one of them
    has formula terms: the other one reads them back as its own. *)
